@@ -172,6 +172,53 @@ def components (v11 : Bool) (v : Val) : List Int :=
   [if v11 then lex11OfAstro v.year else lex10OfAstro v.year, v.month, v.day,
    v.us / 3600000000, v.us / 60000000 % 60, v.us % 60000000]
 
+/-! ### xs:time (F&O 3.1 §9.4.? time comparison on a common reference day, §9.7 arithmetic, §9.6.3 adjust) -/
+
+/-- a time value: µs since midnight and an optional timezone -/
+structure TVal where
+  us : Int
+  tz : Option Int
+  deriving DecidableEq, Repr, Inhabited
+
+/-- position of the time on the common reference day, implicit timezone `itz` minutes -/
+def TVal.key (itz : Int) (t : TVal) : Int := t.us - (match t.tz with | none => itz | some z => z) * UM
+
+/-- `op:add-dayTimeDuration-to-time`: the time of day moved by the duration, modulo 24 h, same timezone -/
+def TVal.add (t : TVal) (dur : Int) : TVal := ⟨(t.us + dur) % US, t.tz⟩
+
+/-- `fn:adjust-time-to-timezone` -/
+def TVal.adjust (t : TVal) (tz : Option Int) : TVal :=
+  match t.tz, tz with
+  | some z0, some z => ⟨(t.us + (z - z0) * UM) % US, some z⟩
+  | _, _ => ⟨t.us, tz⟩
+
+/-- `op:subtract-times` -/
+def TVal.diff (itz : Int) (a b : TVal) : Int := a.key itz - b.key itz
+
+/-! ### arithmetic on durations (F&O 3.1 §8.4) -/
+
+/-- `fn:round` of the rational `num / den` (`den > 0`): nearest integer, ties towards positive infinity;
+computed from the floor quotient and the remainder -/
+def roundHalfUp (num den : Int) : Int :=
+  let q := num / den
+  if 2 * (num - q * den) ≥ den then q + 1 else q
+
+/-- `r` is `fn:round (num / den)` -/
+def IsRoundHalfUp (num den r : Int) : Prop := 2 * (r * den) - den ≤ 2 * num ∧ 2 * num < 2 * (r * den) + den
+
+/-- `r` is a nearest integer of `num / den`, the even one on a tie -/
+def IsRoundHalfEven (num den r : Int) : Prop :=
+  -den ≤ 2 * (num - r * den) ∧ 2 * (num - r * den) ≤ den ∧
+  ((2 * (num - r * den) = den ∨ 2 * (num - r * den) = -den) → r % 2 = 0)
+
+/-- nearest integer of `num / den` (`den > 0`), ties to even, by comparing the distances to the two
+neighbouring integers -/
+def roundNearestEven (num den : Int) : Int :=
+  let lo := num / den
+  let dlo := num - lo * den          -- distance to lo (times den)
+  let dhi := (lo + 1) * den - num    -- distance to lo + 1
+  if dlo < dhi then lo else if dhi < dlo then lo + 1 else if lo % 2 = 0 then lo else lo + 1
+
 /-- order of durations (XSD 1.1 §3.3.6.2): `d1 op d2` holds iff `t + d1 op t + d2` for each of the four
 reference dateTimes 1696-09-01T00:00:00Z, 1697-02-01T00:00:00Z, 1903-03-01T00:00:00Z, 1903-07-01T00:00:00Z;
 a duration is (months, µs) -/
